@@ -10,6 +10,7 @@ handed exactly the coordinate arrays computed from THAT tile's corners/orientati
 tile's position holds the sampler's result in display orientation (rows reversed iff the stored format is bottom-up),
 (3) update mode merges by the C15 semantics, (4) one file per (accepted) leaf, nothing else.
 """
+from vlib.core import soft_attr as core_u
 import numpy as _np
 import z3
 
@@ -297,8 +298,8 @@ def cases(tier):
 
 def check(run):
     run.uses(tt.sample_layer, tt.sample_layer_filtered, tt.ToastSampler.__init__, tt.ToastSampler.visit_callback, tt.toast_tile_get_coords,
-             tt.generate_tiles_filtered, tt._postfix_corner, tt._div4, tt._create_level1_tiles, tt.create_single_tile,
-             tp.Pyramid.visit_leaves, tp.Pyramid._visit_leaves_serial, tp.PyramidIO.write_image, tp.PyramidIO.update_image,
+             tt.generate_tiles_filtered, core_u(tt, "_postfix_corner"), core_u(tt, "_div4"), core_u(tt, "_create_level1_tiles"), tt.create_single_tile,
+             tp.Pyramid.visit_leaves, core_u(tp.Pyramid, "_visit_leaves_serial"), tp.PyramidIO.write_image, tp.PyramidIO.update_image,
              tp.PyramidIO.read_image, ti.Image.from_array, ti.Image.update_into_maskable_buffer)
     run.bound(depth="0, 1, 2 (quick); up to 3 (thorough): every tile of the layer inspected (one path per tile)", pixels="symbolic (r, c, channel)",
               sampler="uninterpreted image per call; scalar float and RGB", modes="clobber and update (arbitrary prior tile or none)",
